@@ -128,6 +128,8 @@ Proof.
     intros e [<-|[]]; simpl; auto.
   - destruct (increase_spec _ _ _ _ _ _ _ _ NDp A) as (_ & x & L & _ & _ & _ & _ & _ & _ & _ & _ & _ & _ & _ & -> & _).
     intros e [].
+  - destruct (increase_p_spec _ _ _ _ _ _ _ NDp A) as (_ & x & L & _ & _ & _ & _ & _ & _ & _ & _ & _ & _ & _ & -> & _).
+    intros e [].
   - destruct (request_batch_spec _ _ _ _ _ _ _ _ _ NDp (inv_bnlt _ I) A) as (b & R). decompose [and] R. subst evs.
     intros e [<-|[]]; simpl; auto.
   - destruct (batch_executed_op_spec _ _ _ _ _ _ I A) as (_ & _ & s1 & e1 & e2 & H1 & H2 & -> & _ & ND1).
@@ -165,6 +167,7 @@ Proof.
   - left. destruct (send_p_spec _ _ _ _ _ _ _ _ A) as (_ & _ & _ & _ & _ & _ & _ & _ & E & _); auto.
   - left. destruct (cancel_spec _ _ _ _ _ NDp A) as (x & R). decompose [and] R. auto.
   - left. destruct (increase_spec _ _ _ _ _ _ _ _ NDp A) as (_ & x & L & R). decompose [and] R. auto.
+  - left. destruct (increase_p_spec _ _ _ _ _ _ _ NDp A) as (_ & x & L & R). decompose [and] R. auto.
   - left. destruct (request_batch_spec _ _ _ _ _ _ _ _ _ NDp (inv_bnlt _ I) A) as (b & R). decompose [and] R. auto.
   - right. destruct (batch_executed_op_spec _ _ _ _ _ _ I A) as (Hh & _ & s1 & e1 & e2 & H1 & H2 & _ & S & ND1).
     destruct (batch_executed_spec (observed s h) _ _ _ _ (inv_bn _ I) H1)
